@@ -62,7 +62,9 @@ class SimulationScenario():
         if "points" in dictionary:
             self.points = dictionary["points"]
             if model is not None:
-                self.model.points = self.points
+                # the scenario's points replace the model's graphical functions of the same name, all others stay
+                for key, value in self.points.items():
+                    self.model.points[key] = value
         else:
             self.points = {}
 
